@@ -56,6 +56,8 @@
        prev            the element exactly as it was before the latest block (body, flag, proof)
      src G<g>  g-th element of a reverted branch
        none | flip | cur   as it was on its branch | flag flipped | with the proof now at its position
+     (parents that are not in the accumulator at all -- elements created earlier in the block under
+      validation -- are the subject of InBlock.tla)
      src N0    an element that was never created
        at | last | first   at the next free position without proof | with the last leaf's proof |
                            at position 0 with that leaf's proof
@@ -190,6 +192,21 @@ SupplementSound ==
                 g == [id |-> meta[i + 1].id, ver |-> meta[i + 1].ver, f |-> 0, idx |-> i, spent |-> meta[i + 1].spent, proof |-> client[i]]
             IN /\ SuppAccept(acc, <<g, p.e>>) <=> ExactE(meta, np, p.e)
                /\ SuppAccept(acc, <<p.e, g>>) <=> ExactE(meta, np, p.e)
+
+\* A v2 storage proof names the block that seeds its challenge by a chain index element (its
+\* ProofIndex, at the contract's proof height).  The resolution is acceptable only if that element is a
+\* member -- an ancestor of the applied history, not the index of a competing or reverted block, not an
+\* altered or never-created one -- WHATEVER the size of the contract's file: an empty file has no leaf to
+\* challenge, but the proof still has to refer to the chain's own history.  (Checked in the Full
+\* configurations; the harness presents every chain-index probe as the ProofIndex of a storage proof for
+\* a genuine contract with a non-empty and with an empty file.)
+HistoryAccept(a, e, filesize) == MemberE(a, e)
+HistorySound ==
+  Full =>
+    \A hs \in {HashesOf(meta)} :
+      \A np \in {[i \in 0..(acc.n - 1) |-> NaivePath(hs, i)]} :
+        \A p \in Probes : \A size \in {0, 64} :
+          HistoryAccept(acc, [p.e EXCEPT !.spent = FALSE], size) <=> ExactE(meta, np, [p.e EXCEPT !.spent = FALSE])
 
 -----------------------------------------------------------------------------
 (* ------------------------------ behaviour -------------------------------- *)
